@@ -116,9 +116,9 @@ def main():
                 print(name, results[name], flush=True)
                 continue
             open(fp, 'w').write(s.replace(old, new))
-            rc, o = sh('/venv/bin/python -m pytest test -q -p no:cacheprovider -x 2>&1 | tail -1', env={'PYTHONPATH': wt + '/src'}, cwd=wt)
-            res = {'file': path, 'unit_tests': o.strip(), 'checks': {}}
-            if ' failed' in o or 'error' in o.lower():
+            rc, o = sh('timeout 300 /venv/bin/python -m pytest test -q -p no:cacheprovider -x 2>&1 | tail -1', env={'PYTHONPATH': wt + '/src'}, cwd=wt)
+            res = {'file': path, 'unit_tests': o.strip() or 'hang/timeout', 'checks': {}}
+            if ' failed' in o or 'error' in o.lower() or ' passed' not in o:
                 res['status'] = 'killed-by-existing-tests'
             else:
                 caught = False
